@@ -73,6 +73,7 @@ PROPS = {
             "BPT.Props.C01.run_refines",
             "BPT.Props.C01.refines_btreemap",
             "BPT.Props.C01.reachable_inv",
+            "BPT.Props.C01.clear_is_new", "BPT.Props.C01.history_after_clear",
             "BPT.Props.C01.abs_sorted",
             "BPT.Props.C01.insert_keeps_first_key_object",
             "BPT.Props.C01.insert_absent",
